@@ -143,6 +143,9 @@ def as_caster(t):
     return t if isinstance(t, T) else T(as_npdtype(t))
 
 
+_RND32 = z3.Function('rnd32', z3.RealSort(), z3.RealSort())
+
+
 def cast_value(x, dt):
     """numba's conversion of a scalar to dtype ``dt`` (real model for floats, mathematical
     ints for Int-sorted terms, exact width/sign handling for bit-vector terms)."""
@@ -156,7 +159,15 @@ def cast_value(x, dt):
     if isinstance(x, Sym):
         xk = x.kind
         if k == 'f':
-            return x if xk == 'r' else Sym(z3.simplify(x.as_real()))
+            v = x if xk == 'r' else Sym(z3.simplify(x.as_real()))
+            c = core.ctx()
+            if dt.itemsize == 4 and c is not None and c.extra.get('mark_precision') and not z3.is_rational_value(v.e):
+                # opt-in precision marker: a value that passes through float32 is wrapped in an uninterpreted rounding
+                # function, so that "computed in float32" and "computed in float64" are different terms
+                if z3.is_app(v.e) and v.e.decl().eq(_RND32):
+                    return v            # rounding is idempotent
+                return Sym(_RND32(v.e))
+            return v
         if k in 'iu':
             if xk == 'r':
                 return core.sym_trunc(x)
@@ -558,6 +569,62 @@ class SArr(real_np.ndarray):
         new_shape = tuple(new_shape) if not isinstance(new_shape, int) else (new_shape,)
         if len(new_shape) != self.ndim or any(a > b for a, b in zip(new_shape, self.shape)):
             raise ModelGap('ndarray.resize that grows an array')
+
+    # -- opt-in numpy (not numba) integer-array semantics: an array of a narrow integer dtype combined with a python int
+    #    or with another integer array keeps numpy's result dtype and WRAPS in it (ctx.extra['numpy_int_semantics'])
+    def _npint(self, o, name):
+        c = core.ctx()
+        if c is None or not c.extra.get('numpy_int_semantics'):
+            return NotImplemented
+        dt = self.dtype.dt
+        if dt.kind not in 'iu':
+            return NotImplemented
+        if isinstance(o, SArr):
+            if o.dtype.dt.kind not in 'iu':
+                return NotImplemented
+            rdt = real_np.result_type(dt, o.dtype.dt)
+        elif isinstance(o, (bool, int, real_np.integer)) or (isinstance(o, Sym) and o.kind in 'ib'):
+            rdt = dt
+        else:
+            return NotImplemented
+        raw = getattr(real_np.ndarray, name)(real_np.ndarray.view(self, real_np.ndarray), real_np.ndarray.view(o, real_np.ndarray) if isinstance(o, SArr) else o)
+        out = SArr(raw.shape, rdt, fill=None)
+        bits = rdt.itemsize * 8
+        for idx in real_np.ndindex(*raw.shape):
+            v = raw[idx]
+            if isinstance(v, Sym) and v.kind == 'i' and bits < 64:
+                lo, hi = (0, (1 << bits) - 1) if rdt.kind == 'u' else (-(1 << (bits - 1)), (1 << (bits - 1)) - 1)
+                out_of_range = z3.Or(v.e < lo, v.e > hi)
+                if c.feasible(out_of_range):
+                    # deciding query: can the mathematical result leave the dtype's range (so that numpy wraps it)?
+                    c.report('violation', f'{rdt.name} array arithmetic ({name.strip("_")}) wraps around: the mathematical result can leave [{lo}, {hi}] at {_site()}',
+                             key=f'intwrap:{rdt.name}:{name.strip("_")}', cond=out_of_range, info=dict(site=_site()))
+                m = v.e % (1 << bits)
+                if rdt.kind == 'i':
+                    m = z3.If(m >= (1 << (bits - 1)), m - (1 << bits), m)
+                v = Sym(z3.simplify(m))
+            elif isinstance(v, (int, real_np.integer)) and not isinstance(v, bool) and bits < 64:
+                v = int(v) % (1 << bits)
+                if rdt.kind == 'i' and v >= (1 << (bits - 1)):
+                    v -= 1 << bits
+            real_np.ndarray.__setitem__(out, idx, v)
+        return out
+
+    def __sub__(self, o):
+        r = self._npint(o, '__sub__')
+        return r if r is not NotImplemented else real_np.ndarray.__sub__(self, o)
+
+    def __add__(self, o):
+        r = self._npint(o, '__add__')
+        return r if r is not NotImplemented else real_np.ndarray.__add__(self, o)
+
+    def __mul__(self, o):
+        r = self._npint(o, '__mul__')
+        return r if r is not NotImplemented else real_np.ndarray.__mul__(self, o)
+
+    def __floordiv__(self, o):
+        r = self._npint(o, '__floordiv__')
+        return r if r is not NotImplemented else real_np.ndarray.__floordiv__(self, o)
 
     def _iop(self, o, f):
         if isinstance(o, (Sym, Cplx)):
